@@ -102,6 +102,13 @@ def handleSobs (c : Line) (l : Line) : IO Unit := do
     let n := text.length
     let f := judge n (Spec.Expr.mustRejectFilter text) (l.getD "f")
     let p := judge n (Spec.Expr.mustRejectProj text) (l.getD "p") (Spec.Expr.mustAcceptProj text)
+    -- a rejected field of a simple projection must be reported at that field
+    let p := match Spec.Expr.firstBadSpan text, ((l.getD "p").splitOn ":") with
+      | some (s, e), ["err", off] =>
+        (match off.toNat? with
+         | some o => if s ≤ o ∧ o ≤ e then p else s!"err:{s}..{e}"
+         | none => s!"err:{s}..{e}")
+      | _, _ => p
     IO.println s!"spec {l.id} n={n} f={f} p={p}"
   else if kind == "quote" then
     let s := (c.bytes? "s").getD []
